@@ -350,7 +350,18 @@ func (r *run) enabled(actor string) bool {
 	switch p.Point {
 	case "prelock":
 		return r.lock == "" || r.broken
-	case "idgen", "written", "dispatch":
+	case "idgen":
+		if r.broken {
+			// the lock that orders the writes is not the one the probe went through: whoever has
+			// written and not yet returned still holds it
+			for _, a := range append([]string{r.rx}, callerNames(r)...) {
+				if q := r.sc.Parked(a); a != actor && q != nil && q.Point == "written" {
+					return false
+				}
+			}
+		}
+		return true
+	case "written", "dispatch":
 		return true
 	case "prerecv":
 		return isRx // the receive loop's own request is an ack: a null-sender is waiting
@@ -552,7 +563,18 @@ func (r *run) doProbe(actor string) {
 	r.broken = true
 	items := r.onArrival(actor, ar)
 	r.record("probe "+show, strings.Join(items, " "))
-	// let the overtaker write and return before the overtaken sender continues
+	// let the overtaker write and return before the overtaken sender continues; a holder that has
+	// already written still owns whatever lock covers the write: it returns first
+	if h := r.lock; h != "" && h != actor {
+		if p := r.sc.Parked(h); p != nil && p.Point == "written" {
+			hs := h
+			if h == r.rx {
+				hs = "rx"
+			}
+			r.slog("auto-step " + hs)
+			r.doStep(h)
+		}
+	}
 	for i := 0; i < 2; i++ {
 		if p := r.sc.Parked(actor); p != nil && (p.Point == "idgen" || p.Point == "written") {
 			r.slog("auto-step " + show)
@@ -858,7 +880,9 @@ func (r *run) finish() {
 			r.out.line("V", idx, "C10", "ack-odd-seqno", fmt.Sprintf("frame %d is msgs_ack but seq_no %d is odd", i, f.SeqNo))
 		}
 		if i > 0 {
-			if f.MsgID <= prev.MsgID {
+			if f.MsgID == prev.MsgID {
+				r.out.line("V", idx, "C10", "msgid-repeated", fmt.Sprintf("frame %d carries the same msg_id as frame %d", i, i-1))
+			} else if f.MsgID <= prev.MsgID {
 				r.out.line("V", idx, "C10", "msgid-order-inversion",
 					fmt.Sprintf("frame %d written after frame %d has msg_id lower by %d", i, i-1, prev.MsgID-f.MsgID))
 			}
